@@ -10,7 +10,8 @@ with the substitute parser).
 Suites (files under /repo/tests): test_schema, test_edgeql_ir_card_inference,
 test_edgeql_ir_mult_inference, test_edgeql_ir_volatility_inference,
 test_edgeql_ir_type_inference, test_edgeql_ir_pathid,
-test_edgeql_ir_scopetree, test_schema_syntax-independent ones only.
+test_edgeql_ir_scopetree; with --extra also EXTRA_SUITES below (SQL codegen,
+toy evaluation model / interpreter suites, tracer, connpool, ...).
 
 Default: --sample 6 (every 6th test of each suite, deterministic).  --all
 runs everything (~ a few minutes).
@@ -46,6 +47,21 @@ SUITES = [
     'test_edgeql_ir_type_inference',
     'test_edgeql_ir_pathid',
     'test_edgeql_ir_scopetree',
+]
+# Further upstream suites that need no server and pass under the substrate
+# (run with --extra, or name them with --suite):
+EXTRA_SUITES = [
+    'test_edgeql_sql_codegen',        # EdgeQL -> IR -> SQL text (pgsql compiler)
+    'test_tracer',
+    'test_eval_model',
+    'test_eval_model_group',
+    'test_eval_model_new_interpreter',
+    'test_interpreter_disambiguation',
+    'test_edgeql_select_interpreter',
+    'test_api_errors',
+    'test_server_pool',               # connpool unit tests (10 skipped upstream)
+    'test_server_request_scheduler',
+    'test_profiling',
 ]
 BASELINE = HERE / 'schema_baseline.json'
 
@@ -112,6 +128,8 @@ def main(argv=None):
     g.add_argument('--all', action='store_true')
     g.add_argument('--sample', type=int, default=6)
     ap.add_argument('--suite', action='append')
+    ap.add_argument('--extra', action='store_true',
+                    help='also run EXTRA_SUITES')
     ap.add_argument('--quiet', action='store_true')
     ap.add_argument('--no-baseline', action='store_true')
     ap.add_argument('--check-baseline', action='store_true')
@@ -122,7 +140,7 @@ def main(argv=None):
     vrt.prime_testbase()
     print(f'# std schema ready in {time.time() - t0:.1f}s', flush=True)
 
-    suites = args.suite or SUITES
+    suites = args.suite or (SUITES + (EXTRA_SUITES if args.extra else []))
     outcomes = {}
     for name in suites:
         ts = time.time()
